@@ -321,10 +321,9 @@ impl<'a> Checker<'a> {
             }
             Ty::Interface(ms) => {
                 if op.mode == Mode::Nil {
+                    // stays a nil operand, now typed
                     op.ty = target;
-                    op.mode = Mode::Value;
                     self.record(op);
-                    // keep a marker that this is nil: res says Nil
                     return true;
                 }
                 if !ms.is_empty() {
@@ -338,7 +337,6 @@ impl<'a> Checker<'a> {
             Ty::Pointer(_) | Ty::Slice(_) | Ty::Func(..) => {
                 if op.mode == Mode::Nil {
                     op.ty = target;
-                    op.mode = Mode::Value;
                     self.record(op);
                     true
                 } else {
@@ -850,7 +848,7 @@ impl<'a> Checker<'a> {
                     ConstVal::Int(i) => i.clone(),
                     _ => return inv,
                 };
-                if cnt.to_u64().map_or(true, |c| c >= 1074) {
+                if cnt.to_u64().map_or(true, |c| c > 1074) {
                     self.err("invalid-op", e.line, format!("invalid shift count {}", cnt.to_decimal()));
                     return inv;
                 }
@@ -882,7 +880,7 @@ impl<'a> Checker<'a> {
                     ConstVal::Int(i) => i.clone(),
                     _ => return inv,
                 };
-                if cnt.to_u64().map_or(true, |c| c >= 1074) {
+                if cnt.to_u64().map_or(true, |c| c > 1074) {
                     self.err("invalid-op", e.line, format!("invalid shift count {}", cnt.to_decimal()));
                     return inv;
                 }
